@@ -52,20 +52,46 @@ SEEDS = {
  "C20-2": ("C20", "multipart body polled at least TWICE more after its end (after an error: extra poll 1 is still None, polls 2..4 index out of bounds)", ["C06"]),
 }
 
+# second round: sub-agents were additionally told which ideas had been used already and where else to look
+R2 = {
+ "C03-3": ("/tmp/seeds2/C03/1", "C03", "suffix longer than the entity (bytes=-n, n > L): dropped as unsatisfiable (416; or a lone other range) instead of selecting the whole entity", []),
+ "C03-4": ("/tmp/seeds2/C03/2", "C03", "an open-ended `first-` spec AFTER a `first-last` spec: inherits the previous spec's end instead of EOF (order matters)", ["C02"]),
+ "C04-3": ("/tmp/seeds2/C04/1", "C04", "entity WITHOUT ETag but with a modification time + If-None-Match tag list + If-Modified-Since >= LM: If-None-Match treated as absent, 304", []),
+ "C04-4": ("/tmp/seeds2/C04/2", "C04", "both a failing precondition (If-Match / If-Unmodified-Since) and a matching If-None-Match / If-Modified-Since: 304 checked before 412", []),
+ "C06-3": ("/tmp/seeds2/C06/1", "C06", "entity that supplies a header field with two or more values: only the first value is rendered in each part", []),
+ "C06-4": ("/tmp/seeds2/C06/2", "C06", "two ADJACENT range specs resolving to the same bytes (0-9,0-9 or -10,3990-): deduplicated, fewer parts / single-range 206", ["C03"]),
+ "C08-3": ("/tmp/seeds2/C08/1", "C08", "two consecutive flushes (or flush then drop) of partial chunks with no consumer poll in between, both fitting one chunk: bytes appended to the queued chunk AND kept in the buffer (delivered twice)", []),
+ "C09-3": ("/tmp/seeds2/C08/2", "C09", "gzip level 1, incompressible data in writes < 32 KiB, flush when ~58 250..61 440 bytes were written since the last flush: second encoder flush made conditional on the last write size", []),
+ "C10-3": ("/tmp/seeds2/C10/1", "C10", "consumer parked, writer dropped with bytes buffered; the consumer's poll(chunk) and poll(Pending) both land between the drop's two critical sections (chunk hand-over, then writer_dropped without wake)", []),
+ "C10-4": ("/tmp/seeds2/C10/2", "C10", "raw writer dropped with an EMPTY buffer while the consumer is parked: end flag published but the waker is only taken on the branch that pushes a chunk", []),
+ "C11-3": ("/tmp/seeds2/C11/1", "C11", "body dropped while the queue is empty (before any data / mid-chunk / after everything was consumed): Reader::drop returns early without marking the state", []),
+ "C11-4": ("/tmp/seeds2/C11/2", "C11", "gzip writer: abort then write (not flush) with a chunk size larger than what the encoder emits: `Dead` never entered, write returns Ok", []),
+ "C12-3": ("/tmp/seeds2/C12/1", "C12", "writer dropped with >= 2 chunks queued, hint sampled after a post-drop frame: ready_bytes not decremented on that pop path (lower bound too high)", []),
+ "C12-4": ("/tmp/seeds2/C12/2", "C12", "live writer with >= 1 chunk queued and more data to come: size_hint gives an upper bound (exact) although the writer is alive", []),
+ "C13-3": ("/tmp/seeds2/C13/1", "C13", "extension methods that equal GET/HEAD only case-insensitively (get, Head): pass the method gate, no 405, entity read", []),
+ "C15-3": ("/tmp/seeds2/C13/2", "C15", "HEAD + exactly one satisfiable range + If-Range byte-equal to the strong ETag + entity with headers: HEAD adds entity headers that GET omits", []),
+ "C19-3": ("/tmp/seeds2/C19/1", "C19", "a dotted name (a.., ..a, ...) EARLIER in the path than a real `..` segment: only the first `..` occurrence is examined", []),
+ "C18-3": ("/tmp/seeds2/C19/2", "C18", "a File that is neither regular nor a directory (/dev/null, FIFO): `!is_file()` became `is_dir()`", []),
+ "C07-3": ("/tmp/seeds2/C07/1", "C07", "Poll::Pending from the entity stream exactly at the announced-length boundary, followed by an entity Err or an extra chunk: the one tail check is used up by the Pending", ["C20"]),
+ "C20-3": ("/tmp/seeds2/C07/2", "C20", "200 / single 206, entity error right after the chunk that completes the range, then >= 1 extra poll: the held last chunk is released after the error", ["C07"]),
+ "C14-3": ("/tmp/seeds2/C07/3", "C14", "modification time with a non-zero sub-second part (at least a second in the past): Last-Modified rounded UP to the next second", ["C04"]),
+}
+
 def sh(cmd, **kw):
     return subprocess.run(cmd, shell=True, capture_output=True, text=True, **kw)
 
 def main():
     only = sys.argv[1:]
-    for sid, (prop, needs, extra) in SEEDS.items():
+    items = [(sid, f"/tmp/seeds/{sid.replace('-', '/')}", prop, needs, extra, 1) for sid, (prop, needs, extra) in SEEDS.items()]
+    items += [(sid, src, prop, needs, extra, 2) for sid, (src, prop, needs, extra) in R2.items()]
+    for sid, src, prop, needs, extra, rnd in items:
         if only and sid not in only:
             continue
-        src = f"/tmp/seeds/{sid.replace('-', '/')}"
         log = f"/var/tmp/confirm/{sid}.log"
         if not os.path.exists(f"{src}/patch.diff"):
             print(sid, "not delivered yet"); continue
         if not os.path.exists(log):
-            feat = "dir" if prop == "C19" else ""
+            feat = "dir" if prop in ("C19",) else ""
             r = sh(f"/verif/tools/confirm_seed.sh {src} {feat}")
             open(log, "w").write(r.stdout + r.stderr)
         text = open(log).read()
@@ -98,7 +124,7 @@ def main():
         meta = {
             "seed": sid,
             "property": prop,
-            "origin": "written by an independent sub-agent that was given only the property text and a scratch worktree of /repo (nothing from /verif)",
+            "origin": "written by an independent sub-agent that was given only the property text and a scratch worktree of /repo (nothing from /verif)" + ("; second round: it was also told which ideas the first round had used and where else in the code to look" if rnd == 2 else ""),
             "needs_to_manifest": needs,
             "confirmed_by_me": {
                 "how": "tools/confirm_seed.sh in a scratch worktree under /tmp (removed afterwards)",
